@@ -129,7 +129,26 @@ class AstToSqlVisitor(visitor.NodeVisitor):
         right = self.visit(node.right)
         op = self.visit(node.op)
 
+        # Keep the grouping of nested arithmetic: `*`, `/` and `%` bind tighter
+        # than `+` and `-`, and operators of the same level associate to the left.
+        prec = self._binop_precedence(node.op)
+        if (
+            isinstance(node.left, ast.BinOp)
+            and self._binop_precedence(node.left.op) < prec
+        ):
+            left = f"({left})"
+        if (
+            isinstance(node.right, ast.BinOp)
+            and self._binop_precedence(node.right.op) <= prec
+        ):
+            right = f"({right})"
+
         return f"{left} {op} {right}"
+
+    @staticmethod
+    def _binop_precedence(op: ast._BinOpToken) -> int:
+        ":meta private:"
+        return 1 if isinstance(op, (ast.Add, ast.Sub)) else 2
 
     def visit_Eq(self, node: ast.Eq) -> str:
         ":meta private:"
